@@ -718,6 +718,7 @@ impl Generator {
                     Surgery::InstallCvar { .. } => &["cvar", "cvt "],
                     Surgery::InstallVarComposite { .. } => &["glyf", "gvar"],
                     Surgery::InstallVarSimple { .. } => &["gvar"],
+                    Surgery::InstallAvar { .. } => &["avar"],
                     _ => &[],
                 });
             }
@@ -1713,6 +1714,11 @@ fn gen_install(rng: &mut Rng, info: &FontInfo, prop: &str) -> Option<(FontInfo, 
                 break;
             }
         }
+    }
+    if info.axes > 0 && !info.has("avar") && rng.pct(p_cvar) {
+        surgeries.push(Surgery::InstallAvar {
+            variant: rng.next_u64() >> 8,
+        });
     }
     if info.axes > 0 && info.has("glyf") && !info.has("cvar") && rng.pct(p_cvar) {
         surgeries.push(Surgery::InstallCvar {
